@@ -244,13 +244,41 @@ def coq_dop(o):
     return {"copy": "DCopy", "iter": "DIterate"}[k]
 
 
-def coq_list_case(c):
-    return "((%s : list val), ([%s] : list lop))" % (coq_vals(c["init"]), ";".join(coq_lop(o) for o in c["ops"]))
+class Pool:
+    """Coq parses ~3000 tokens a second, so every distinct operation / start collection of a batch is defined once
+    (Definition o<k> ...) and the case terms only name them."""
+
+    def __init__(self, kind):
+        self.kind = kind
+        self.names = {}
+        self.defs = []
+
+    def name(self, prefix, obj, render, ty):
+        key = prefix + json.dumps(obj, sort_keys=True)
+        if key not in self.names:
+            nm = "%s%d" % (prefix, len(self.names))
+            self.names[key] = nm
+            self.defs.append("Definition %s : %s := %s." % (nm, ty, render(obj)))
+        return self.names[key]
+
+    def case(self, c):
+        if self.kind == "list":
+            i = self.name("i", c["init"], coq_vals, "list val")
+            ops = [self.name("o", o, coq_lop, "lop") for o in c["ops"]]
+        else:
+            i = self.name("i", c["init"], lambda kv: "[%s]" % ";".join("(%s,%s)" % (coq_text(k), coq_val(v)) for k, v in kv),
+                          "list (text * val)")
+            ops = [self.name("o", o, coq_dop, "dop") for o in c["ops"]]
+        return "(%s, [%s])" % (i, ";".join(ops)) if ops else "(%s, @nil %s)" % (i, "lop" if self.kind == "list" else "dop")
+
+    def imports(self):
+        return IMPORTS + "\n" + "\n".join(self.defs)
 
 
-def coq_dict_case(c):
-    return "(([%s] : list (text * val)), ([%s] : list dop))" % (";".join("(%s,%s)" % (coq_text(k), coq_val(v)) for k, v in c["init"]),
-                                                                 ";".join(coq_dop(o) for o in c["ops"]))
+def coq_eval_cases(kind, cases, fn, name):
+    pool = Pool(kind)
+    terms = [pool.case(c) for c in cases]
+    return core.coq_run_cases(name, pool.imports(), fn, terms, shard=400)
 
 
 def op_name(o):
@@ -265,7 +293,9 @@ STRS = ["", "a", "甲", "ab", "你好", "x y"]
 def gen_scalar(rng, api=True):
     r = rng.random()
     if r < 0.45:
-        return N(rng.choice([0, 1, 2, 3, 5, 7, -1, -4, 10, 12, 100, 123456789, 4503599627370495, -4503599627370495]))
+        # stored (hence displayed) numbers stay below 10^6 in magnitude: from there on fmt's %v switches to the
+        # exponent form, which the model does not render; huge numbers are used as positions only
+        return N(rng.choice([0, 1, 2, 3, 5, 7, -1, -4, 10, 12, 100, 99999, -99999, 999999]))
     if r < 0.65:
         return S(rng.choice(STRS) if api else rng.choice(["a", "甲", "ab", "你好"]))
     if r < 0.75:
@@ -368,17 +398,42 @@ def est_len(n, o):
     return n
 
 
-def gen_list_case(rng, length, api=True):
+def gen_list_init(rng, api=True):
     init = [gen_val(rng, 2, api) for _ in range(rng.choice([0, 0, 1, 2, 3, 5]))]
     if rng.random() < 0.15:
         init = [S(rng.choice(["a", "甲", "bc"])) for _ in range(rng.randrange(0, 4))]   # 拼接 succeeds
-    n = len(init)
-    ops = []
-    for _ in range(length):
-        o = gen_lop(rng, n, api)
-        ops.append(o)
-        n = est_len(n, o)
-    return {"init": init, "ops": ops}
+    return init
+
+
+class Pools:
+    """a per-run pool of operations and start collections; histories draw from it (keeps the Coq terms small)"""
+
+    def __init__(self, rng, api, nops):
+        ok = (lambda kind, o: True) if api else (lambda kind, o: prog_ok_case(kind, {"init": [], "ops": [o]}))
+        self.lops, self.dops = [], []
+        while len(self.lops) < nops:
+            o = gen_lop(rng, rng.randrange(0, 7), api)
+            if ok("list", o):
+                self.lops.append(o)
+        while len(self.dops) < nops:
+            o = gen_dop(rng, api)
+            if ok("dict", o):
+                self.dops.append(o)
+        self.linits, self.dinits = [], []
+        while len(self.linits) < 14:
+            i = gen_list_init(rng, api)
+            if api or prog_ok_case("list", {"init": i, "ops": []}):
+                self.linits.append(i)
+        while len(self.dinits) < 14:
+            i = gen_dict_init(rng, api)
+            if api or prog_ok_case("dict", {"init": i, "ops": []}):
+                self.dinits.append(i)
+
+    def list_case(self, rng, length):
+        return {"init": rng.choice(self.linits), "ops": [rng.choice(self.lops) for _ in range(length)]}
+
+    def dict_case(self, rng, length):
+        return {"init": rng.choice(self.dinits), "ops": [rng.choice(self.dops) for _ in range(length)]}
 
 
 def gen_key(rng):
@@ -420,11 +475,11 @@ def gen_dop(rng, api=True):
     return {"op": "meth", "m": m, "args": args}
 
 
-def gen_dict_case(rng, length, api=True):
+def gen_dict_init(rng, api=True):
     init = []
     for _ in range(rng.choice([0, 0, 1, 2, 4, 6, 9])):
         init.append([[ord(c) for c in gen_key(rng)], gen_val(rng, 2, api)])     # duplicate keys on purpose
-    return {"init": init, "ops": [gen_dop(rng, api) for _ in range(length)]}
+    return init
 
 
 # exhaustive short histories over a small alphabet
@@ -473,45 +528,53 @@ def product_cases(alphabet, length, inits, key):
 
 
 # ------------------------------------------------------------------ comparison
-def impl_list_steps(out):
-    if "steps" not in out:
+def hash_row(row):
+    """Collections.hash_row: length, sum and position-weighted sum packed into one integer"""
+    a = b = 0
+    for i, x in enumerate(row):
+        y = x + 9007199254740992
+        a += y
+        b += (i + 1) * y
+    return (len(row) & 65535) + ((a & 4294967295) << 16) + ((b & 4294967295) << 48)
+
+
+def impl_rows(kind, out):
+    """per step: (result encoding, state encoding, display encoding, raw result); dictionaries start with the
+    freshly constructed collection"""
+    if not isinstance(out, dict) or "steps" not in out:
         return None
     res = []
+    if kind == "dict":
+        res.append(([], enc_hm_dump(out["init"]["state"]), enc_text(out["init"]["text"]), None))
     for s in out["steps"]:
-        res.append((enc_result(s["r"]), enc_dump(s["state"]), enc_text(s["text"]), s["r"]))
+        r = enc_result(s["r"])
+        if r[0] == 1 and r[1] not in (40, 41):
+            r = [1, 0]       # an error other than the index errors: only "is an error" is compared
+        st = enc_dump(s["state"]) if kind == "list" else enc_hm_dump(s["state"])
+        res.append((r, st, enc_text(s["text"]), s["r"]))
     return res
 
 
-def impl_dict_steps(out):
-    if "steps" not in out:
-        return None
-    res = [([], enc_hm_dump(out["init"]["state"]), enc_text(out["init"]["text"]), None)]
-    for s in out["steps"]:
-        res.append((enc_result(s["r"]), enc_hm_dump(s["state"]), enc_text(s["text"]), s["r"]))
-    return res
-
-
-def first_mismatch(kind, case, model, steps):
-    """index of the first differing step and which aspect differs, or None"""
-    if steps is None:
-        return (0, "abnormal")
-    if len(model) != len(steps):
-        return (min(len(model), len(steps)), "length")
-    for i, (m, (r, st, tx, raw)) in enumerate(zip(model, steps)):
-        r2 = r
-        if r and r[0] == 1 and len(m) >= 2 and m[0] == 1 and m[1] not in (40, 41):
-            r2 = [1, m[1]]      # an error other than the index errors: only "is an error" is compared
-        if m == r2 + st + tx:
-            continue
-        # classify
-        if raw is not None and raw["kind"] == "crash":
-            return (i, "crash")
-        if m[:len(r2)] != r2:
-            return (i, "result")
-        if m[len(r2):len(r2) + len(st)] != st:
-            return (i, "state")
-        return (i, "display")
+def first_mismatch(model_hashes, rows):
+    if rows is None:
+        return 0
+    for i, (h, (r, st, tx, raw)) in enumerate(zip(model_hashes, rows)):
+        if h != hash_row(r + st + tx):
+            return i
+    if len(model_hashes) != len(rows):
+        return min(len(model_hashes), len(rows))
     return None
+
+
+def aspect_of(full_row, row):
+    r, st, tx, raw = row
+    if raw is not None and raw["kind"] == "crash":
+        return "crash"
+    if full_row[:len(r)] != r:
+        return "result"
+    if full_row[len(r):len(r) + len(st)] != st:
+        return "state"
+    return "display"
 
 
 def signature_of(kind, case, idx, aspect):
@@ -525,41 +588,58 @@ def signature_of(kind, case, idx, aspect):
     return "%s.%s:%s" % (kind, name, aspect)
 
 
-def eval_model(kind, cases, name):
-    if kind == "list":
-        return core.coq_run_cases(name, IMPORTS, "run_list_case", [coq_list_case(c) for c in cases], shard=150)
-    return core.coq_run_cases(name, IMPORTS, "run_dict_case", [coq_dict_case(c) for c in cases], shard=150)
-
-
-def eval_both(kind, cases, name):
+def eval_both(kind, cases, name, detail=True):
+    """-> per case: (None | (step index, aspect), harness output, full model rows or None).
+    One checksum per case is compared first; the first `detail` mismatching cases are re-evaluated with the full
+    per-step encodings to locate the step (the others get step -1, aspect "unlocated")."""
     outs = core.harness(HARNESS, kind, [{"init": c["init"], "ops": c["ops"]} for c in cases])
-    model = eval_model(kind, cases, name)
+    hashes = coq_eval_cases(kind, cases, "(fun c => [run_%s_case_hh c])" % kind, name)
     res = []
-    for c, o, m in zip(cases, outs, model):
-        steps = impl_list_steps(o) if kind == "list" else impl_dict_steps(o)
-        res.append((first_mismatch(kind, c, m, steps), o, m))
-    return res
+    bad = []
+    for n, (c, o, mh) in enumerate(zip(cases, outs, hashes)):
+        rows = impl_rows(kind, o)
+        ok = rows is not None and hash_row([hash_row(r + st + tx) for r, st, tx, _ in rows]) == mh[0]
+        res.append([None if ok else (-1, "abnormal" if rows is None else "unlocated"), o, None, rows])
+        if not ok:
+            bad.append(n)
+    if detail and bad:
+        sel = bad[:8 if detail is True else detail]
+        full = coq_eval_cases(kind, [cases[n] for n in sel], "run_%s_case" % kind, name + "f")
+        for n, m in zip(sel, full):
+            rows = res[n][3]
+            res[n][2] = m
+            if rows is None:
+                res[n][0] = (0, "abnormal")
+                continue
+            i = 0
+            while i < len(rows) and i < len(m) and m[i] == rows[i][0] + rows[i][1] + rows[i][2]:
+                i += 1
+            if i < len(rows) and i < len(m):
+                res[n][0] = (i, aspect_of(m[i], rows[i]))
+            else:
+                res[n][0] = (i, "length")
+    return [(a, o, m) for a, o, m, _ in res]
 
 
 def shrink(kind, case, idx):
-    """cut the history after the failing step, then greedily drop earlier operations (a few rounds)"""
+    """cut the history after the failing step, then greedily drop earlier operations and start elements"""
     off = 1 if kind == "dict" else 0
     cur = {"init": case["init"], "ops": case["ops"][:max(0, idx - off) + 1]}
-    for _ in range(8):
+    for _ in range(10):
         cands = []
-        for j in range(len(cur["ops"]) - 1):
+        for j in range(len(cur["ops"])):
             cands.append({"init": cur["init"], "ops": cur["ops"][:j] + cur["ops"][j + 1:]})
         for j in range(len(cur["init"])):
             cands.append({"init": cur["init"][:j] + cur["init"][j + 1:], "ops": cur["ops"]})
         if not cands:
             break
         try:
-            res = eval_both(kind, cands, "c12s")
+            res = eval_both(kind, cands, "c12s", detail=False)
         except RuntimeError:
             break
         nxt = None
         for c, (mm, o, m) in zip(cands, res):
-            if mm is not None and mm[0] == len(c["ops"]) - 1 + off:
+            if mm is not None:
                 nxt = c
                 break
         if nxt is None:
@@ -643,36 +723,48 @@ def prog_ok_case(kind, case):
     return all(ok_val(v) for v in vals)
 
 
+def prog_obs(o):
+    if "display" not in o:
+        return None, "abnormal"
+    fin = 0 if o["kind"] == "value" else (o.get("code") if o.get("class") == "runtime" else "other-error")
+    return o["display"], fin
+
+
 def run_programs(chk, kind, cases):
     if not cases:
         return
-    fn = "run_list_prog" if kind == "list" else "run_dict_prog"
-    terms = [coq_list_case(c) if kind == "list" else coq_dict_case(c) for c in cases]
-    model = core.coq_run_cases("c12p", IMPORTS, fn, terms, shard=150)
+    hashed = coq_eval_cases(kind, cases, "run_%s_prog_h" % kind, "c12p")
     outs = core.harness(HARNESS, "prog", [{"src": [ord(ch) for ch in prog_of(kind, c)]} for c in cases])
-    for c, m, o in zip(cases, model, outs):
+    bad = []
+    for c, mh, o in zip(cases, hashed, outs):
         chk.count(["prog", kind, c["init"], c["ops"]])
         chk.dist("program:" + kind)
+        obs_lines, obs_fin = prog_obs(o)
+        fin_h = mh[-1]
+        # the last row is [0] (finished), [code] or [-1]: recover it from its checksum
+        fin = next((f for f in (0, -1, 40, 41, 45, 46, 53, 80, 82) if hash_row([f]) == fin_h), None)
+        okfin = (obs_fin == fin) or (fin not in (0, 40, 41, -1, None) and isinstance(obs_fin, int) and obs_fin != 0)
+        if obs_lines is None or [hash_row(l) for l in obs_lines] != mh[:-1] or not okfin:
+            bad.append((c, o))
+    if not bad:
+        return
+    bad = bad[:6]
+    model = coq_eval_cases(kind, [c for c, _ in bad], "run_%s_prog" % kind, "c12pf")
+    for (c, o), m in zip(bad, model):
         exp_lines, fin = m[:-1], m[-1][0]
-        if "display" not in o:
-            obs_lines, obs_fin = None, "abnormal"
-        else:
-            obs_lines = o["display"]
-            obs_fin = 0 if o["kind"] == "value" else (o.get("code") if o.get("class") == "runtime" else "other-error")
-        okfin = (obs_fin == fin) or (fin not in (0, 40, 41, -1) and isinstance(obs_fin, int) and obs_fin != 0)
-        if obs_lines != exp_lines or not okfin:
-            k = 0
-            while obs_lines is not None and k < len(exp_lines) and k < len(obs_lines) and exp_lines[k] == obs_lines[k]:
-                k += 1
-            exp_l = "".join(chr(x) for x in exp_lines[k]) if k < len(exp_lines) else "<end: %s>" % fin
-            obs_l = "".join(chr(x) for x in obs_lines[k]) if obs_lines is not None and k < len(obs_lines) else "<end: %s>" % obs_fin
-            chk.violation("program over a %s: displayed line %d differs: expected %s observed %s\n%s" % (
-                kind, k + 1, exp_l[:80], obs_l[:80], prog_of(kind, c)[:200]),
-                "%s.program:%s" % (kind, "crash" if obs_lines is None or "panic" in o or "crash" in o else "display"),
-                {"kind": "program", "coll": kind, "case": c, "program": prog_of(kind, c),
-                 "expected_lines": ["".join(chr(x) for x in l) for l in exp_lines], "expected_end": fin,
-                 "observed": o if obs_lines is None else {"display": ["".join(chr(x) for x in l) for l in obs_lines], "end": obs_fin},
-                 "replay_cmd": "./check C12 --replay <this file>"})
+        obs_lines, obs_fin = prog_obs(o)
+        k = 0
+        while obs_lines is not None and k < len(exp_lines) and k < len(obs_lines) and exp_lines[k] == obs_lines[k]:
+            k += 1
+        exp_l = "".join(chr(x) for x in exp_lines[k]) if k < len(exp_lines) else "<end: %s>" % fin
+        obs_l = "".join(chr(x) for x in obs_lines[k]) if obs_lines is not None and k < len(obs_lines) else "<end: %s>" % obs_fin
+        chk.violation("program over a %s: displayed line %d differs: expected %s observed %s\n%s" % (
+            kind, k + 1, exp_l[:80], obs_l[:80], prog_of(kind, c)[:200]),
+            "%s.program:%s" % (kind, "crash" if obs_lines is None or "panic" in o or "crash" in o else "display"),
+            {"kind": "program", "coll": kind, "case": c, "program": prog_of(kind, c),
+             "expected_lines": ["".join(chr(x) for x in l) for l in exp_lines], "expected_end": fin,
+             "observed": o if obs_lines is None else {"display": ["".join(chr(x) for x in l) for l in obs_lines], "end": obs_fin},
+             "replay_cmd": "./check C12 --replay <this file>"})
 
 
 # ------------------------------------------------------------------ driver
@@ -698,10 +790,13 @@ def run_histories(chk, kind, cases, do_shrink=True):
         chk.dist("%s:ops" % kind, len(c["ops"]))
         for op in c["ops"]:
             chk.dist("%s.op:%s" % (kind, op_name(op)))
-        for row in m:
-            if row and row[0] == 1:
-                chk.dist("%s:expected-error-%d" % (kind, row[1]))
+        if isinstance(o, dict):
+            for st in o.get("steps", []):
+                chk.dist("%s:observed-%s" % (kind, st["r"]["kind"] + (("-%s" % st["r"].get("code")) if st["r"]["kind"] == "err" else "")))
         if mm is None:
+            continue
+        if mm[0] < 0:
+            chk.dist("%s:further-mismatching-histories-not-located" % kind)
             continue
         sig = signature_of(kind, c, mm[0], mm[1])
         if sig in reported and reported[sig] >= 2:
@@ -711,13 +806,15 @@ def run_histories(chk, kind, cases, do_shrink=True):
         if do_shrink:
             small = shrink(kind, c, mm[0])
             r2 = eval_both(kind, [small], "c12s")[0]
-            if r2[0] is not None:
+            if r2[0] is not None and r2[0][0] >= 0:
                 mm, o, m = r2
+                off = 1 if kind == "dict" else 0
+                small = {"init": small["init"], "ops": small["ops"][:max(0, mm[0] - off) + 1]}
                 sig = signature_of(kind, small, mm[0], mm[1])
             else:
                 small = c
         off = 1 if kind == "dict" else 0
-        exp_row = m[mm[0]] if mm[0] < len(m) else None
+        exp_row = m[mm[0]] if m is not None and mm[0] < len(m) else None
         chk.violation(describe(kind, small, mm, o, m), sig,
                       {"kind": "history", "coll": kind, "case": {"init": small["init"], "ops": small["ops"]},
                        "failing_step": mm[0] - off, "aspect": mm[1], "expected_encoding": exp_row,
@@ -743,11 +840,12 @@ def run(chk, replay=None):
     lists += product_cases(list_alphabet(), 2 if quick else 3, linits, "len2" if quick else "len3")
     dicts += product_cases(dict_alphabet(), 3 if quick else 4, dinits, "len3" if quick else "len4")
     # long random histories
-    nl, nd = (220, 220) if quick else (2500, 2500)
+    nl, nd = (160, 160) if quick else (2500, 2500)
+    pools = Pools(rng, True, 260 if quick else 900)
     for _ in range(nl):
-        lists.append(gen_list_case(rng, rng.choice([3, 8, 15, 30, 60])))
+        lists.append(pools.list_case(rng, rng.choice([3, 8, 15, 30, 60])))
     for _ in range(nd):
-        dicts.append(gen_dict_case(rng, rng.choice([3, 8, 15, 30, 60])))
+        dicts.append(pools.dict_case(rng, rng.choice([3, 8, 15, 30, 60])))
     run_histories(chk, "list", lists)
     run_histories(chk, "dict", dicts)
     # programs
@@ -755,18 +853,11 @@ def run(chk, replay=None):
     pl, pd = [], []
     pl += [c["case"] for c in corpus if c.get("coll") == "list" and c.get("kind") == "program"]
     pd += [c["case"] for c in corpus if c.get("coll") == "dict" and c.get("kind") == "program"]
-    tries = 0
-    while len(pl) < npg and tries < 20 * npg:
-        tries += 1
-        c = gen_list_case(rng, rng.choice([2, 4, 8, 14]), api=False)
-        if prog_ok_case("list", c):
-            pl.append(c)
-    tries = 0
-    while len(pd) < npg and tries < 20 * npg:
-        tries += 1
-        c = gen_dict_case(rng, rng.choice([2, 4, 8, 14]), api=False)
-        if prog_ok_case("dict", c):
-            pd.append(c)
+    ppools = Pools(rng, False, 120 if quick else 400)
+    while len(pl) < npg:
+        pl.append(ppools.list_case(rng, rng.choice([2, 4, 8, 14])))
+    while len(pd) < npg:
+        pd.append(ppools.dict_case(rng, rng.choice([2, 4, 8, 14])))
     run_programs(chk, "list", pl)
     run_programs(chk, "dict", pd)
     if os.environ.get("C12_JSON") == "1":
